@@ -83,26 +83,40 @@ def withTable (toks : List String) (f : Fs → String) : String :=
 def splitHexList (s : String) : Option (List Bytes) :=
   if s == "-" then some [] else (s.splitOn ",").mapM parseHex
 
-def step (cfg : Option Config) (line : String) : Option Config × String :=
+/-- state of the driver: no configuration yet / the constructor refused it / an instance -/
+inductive St where
+  | none | refused | some (c : Config)
+
+def step (cfg : St) (line : String) : St × String :=
   match words line with
   | ["norm", h] => (cfg, match parseHex h with | some s => toHex (normalize s) | none => "bad-op")
   | ["prefix", p, f] => (cfg, match parseHex p, parseHex f with
       | some p, some f => boolStr (isFilePrefix p f) | _, _ => "bad-op")
   | ["pathinfo", t] => (cfg, match parseHex t with | some t => toHex (pathInfoOfTarget t) | none => "bad-op")
-  | ["cfg", sym, list, _async, root, al, idx] =>
-    match parseHex root, parseAliases al, parseHex idx with
-    | some root, some al, some idx =>
-      (some { docRoot := root, aliases := al, checkSymlinks := sym == "1", listing := list == "1", indexFile := idx }, "ok")
-    | _, _, _ => (cfg, "bad-op")
+  | "cfg" :: sym :: list :: _async :: root :: al :: idx :: toks =>
+    match parseHex root, parseAliases al, parseHex idx, parseTable toks with
+    | some root, some al, some idx, some t =>
+      -- the harness hands the constructor every alias url with a "/" appended (which the constructor strips)
+      let raw : RawConfig := { docRoot := root, aliases := al.map (fun a => (a.1 ++ [47], a.2)),
+                               checkSymlinks := sym == "1", listing := list == "1", indexFile := idx }
+      let a := construct (t.toFs false) raw
+      let b := construct (t.toFs true) raw
+      match a, b with
+      | some c, some c' => if c.docRoot == c'.docRoot && c.aliases == c'.aliases then (.some c, "ok") else (cfg, "MISS cfg")
+      | none, none => (.refused, "refused")
+      | _, _ => (cfg, "MISS cfg")
+    | _, _, _, _ => (cfg, "bad-op")
   | "cidr" :: h :: toks =>
     match cfg, parseHex h with
-    | some c, some f => (cfg, withTable toks fun fs => showCidr (checkInDocumentRoot fs c f))
-    | none, _ => (cfg, "no-config")
+    | .some c, some f => (cfg, withTable toks fun fs => showCidr (checkInDocumentRoot fs c f))
+    | .refused, some _ => (cfg, "refused")
+    | .none, _ => (cfg, "no-config")
     | _, _ => (cfg, "bad-op")
   | "req" :: h :: toks =>
     match cfg, parseHex h with
-    | some c, some t => (cfg, withTable toks fun fs => showOutcome (main fs c (pathInfoOfTarget t)))
-    | none, _ => (cfg, "no-config")
+    | .some c, some t => (cfg, withTable toks fun fs => showOutcome (main fs c (pathInfoOfTarget t)))
+    | .refused, some _ => (cfg, "closed")      -- no application instance: the connection is closed without a reply
+    | .none, _ => (cfg, "no-config")
     | _, _ => (cfg, "bad-op")
   -- judges: property predicates (Spec) on what the implementation returned
   | ["J", "norm", o] => (cfg, match parseHex o with | some o => boolStr (Spec.canonical o) | none => "bad-op")
@@ -127,4 +141,4 @@ def step (cfg : Option Config) (line : String) : Option Config × String :=
       | _, _ => "bad-op")
   | _ => (cfg, "bad-op")
 
-def main : IO Unit := lineLoop (none : Option Config) step
+def main : IO Unit := lineLoop St.none step
